@@ -54,6 +54,7 @@ fn show_child(c: &ChildSpec) -> String {
         family: Family::Join,
         container: Container::Vec,
         children: vec![c.clone()],
+        variant: 0,
     };
     let s = tmp.show();
     // strip the artificial wrapper "Join/Vec(" ... ")"
